@@ -365,7 +365,7 @@ pub fn check_case(c: &Case) -> Result<CaseInfo, Failure> {
     run_isolated("C04", c.clone(), &run_case)
 }
 
-fn kinds_for(role: Role) -> Vec<Kind> {
+pub fn kinds_for(role: Role) -> Vec<Kind> {
     match role {
         Role::V3Server => vec![Kind::Pub1, Kind::Pub2, Kind::PubRel, Kind::Sub, Kind::Unsub, Kind::Ping, Kind::Pub0],
         Role::V5Server => vec![Kind::Pub1, Kind::Pub2, Kind::Pub1Neg, Kind::Pub1ErrAck, Kind::PubRel, Kind::Sub, Kind::Unsub, Kind::Ping, Kind::Auth, Kind::Pub0],
